@@ -36,6 +36,7 @@ CONSTS = {"FRAME_MIN_SIZE": "c_frame_min_size", "FRAME_OVERHEAD": "c_frame_overh
 NUMERIC_TYPES = {"u8", "u16", "u32", "u64", "usize", "Duration"}
 ENUMS = {"HeartbeatState::Expired": 1, "HeartbeatState::StillRunning": 0}
 EFFECT_OBJECTS = {"timer"}
+EFFECT_FIELDS = {"buf"}          # self.buf.<method>(..): a delegation, recorded with the condition it is under
 # which arguments of an effect call are numbers (durations) and therefore part of what is proved
 EFFECT_NUMERIC_ARGS = {("timer", "set_timeout"): [0]}
 MACROS_IGNORED = {"trace", "debug", "warn", "info", "assert", "debug_assert"}   # logging, and panics (not part of the value)
@@ -103,6 +104,10 @@ def find_fn(src, name):
     return src[m.start():j + 1]
 
 
+def is_field_effect(e):
+    return e[0] == "method" and e[1][0] == "field" and e[1][1] == ("var", "self") and e[1][2] in EFFECT_FIELDS
+
+
 class P:
     def __init__(self, toks):
         self.t, self.i = toks, 0
@@ -122,6 +127,16 @@ class P:
     def fn(self):
         self.eat("fn")
         name = self.eat()
+        if self.peek() == "<":          # generic parameters
+            depth = 0
+            while True:
+                t = self.eat()
+                if t == "<":
+                    depth += 1
+                elif t == ">":
+                    depth -= 1
+                    if depth == 0:
+                        break
         self.eat("(")
         params = []
         while self.peek() != ")":
@@ -144,7 +159,10 @@ class P:
         self.eat(")")
         if self.peek() == "->":
             self.eat()
-            self.skip_type(["{"])
+            self.skip_type(["{", "where"])
+        if self.peek() == "where":
+            while self.peek() != "{":
+                self.eat()
         return ("fn", name, params, self.block())
 
     def skip_parens(self):
@@ -186,10 +204,10 @@ class P:
                 stmts.append(("effect", e))
             elif t == "self" and self.peek(1) == "." and self.peek(3) == "=":
                 # self.field = <expr>;  a state update: its effect calls are recorded, the rest ignored
-                self.eat(); self.eat(); self.eat(); self.eat("=")
+                self.eat(); self.eat(); f = self.eat(); self.eat("=")
                 e = self.expr()
                 self.eat(";")
-                stmts.append(("effect", e))
+                stmts.append(("setfield", f, e))
             elif t == "let" and self.peek(1) == "(":
                 self.eat(); self.eat("(")
                 a = self.eat(); self.eat(","); b = self.eat(); self.eat(")")
@@ -239,6 +257,11 @@ class P:
                 stmts.append(("assign", x, e))
             else:
                 e = self.expr()
+                if is_field_effect(e):
+                    if self.peek() == ";":
+                        self.eat()
+                    stmts.append(("effect", e))
+                    continue
                 if self.peek() == ";":
                     raise Fail("expression statement with effects: %r" % (e,))
                 tail = e
@@ -398,7 +421,7 @@ class Gen:
                 raise Fail("field of a non-variable")
             return self.var(x[1][1], x[2])
         if k == "not":
-            return "(negb %s)" % self.e(x[1])
+            return "(negb %s)" % self.cond(x[1])
         if k == "arith":
             return "(%s %s %s)" % (self.e(x[2]), x[1], self.e(x[3]))
         if k == "tuple":
@@ -433,10 +456,23 @@ class Gen:
         if k == "if":
             if x[3] is None:
                 raise Fail("if without else as an expression")
-            return "(if %s then %s else %s)" % (self.e(x[1]), self.blk(x[2]), self.blk(x[3]))
+            return "(if %s then %s else %s)" % (self.cond(x[1]), self.blk(x[2]), self.blk(x[3]))
         raise Fail("expression kind " + k)
 
-    def effect(self, e):
+    def cond(self, x):
+        """a condition: a bare field / variable read as a condition is a bool kept as 0 / 1"""
+        if x[0] in ("field", "var"):
+            return "(%s =? 1)" % self.e(x)
+        return self.e(x)
+
+    def effect(self, e, guard=None):
+        if is_field_effect(e):
+            name = "self.%s.%s#called" % (e[1][2], e[2])
+            self.effects.append((name, "(if %s then 1 else 0)" % guard if guard else "1"))
+            return
+        return self.effect_obj(e)
+
+    def effect_obj(self, e):
         """record the numeric arguments of a call on an effect object"""
         if e[0] == "method" and e[1][0] == "var" and e[1][1] in EFFECT_OBJECTS:
             for i in EFFECT_NUMERIC_ARGS.get((e[1][1], e[2]), []):
@@ -449,6 +485,8 @@ class Gen:
 
     def stmts(self, stmts, tail, top=False):
         if not stmts:
+            if tail is None and top and self.wrap:
+                return '(RsOk "%s" [%s])' % (self.wrap, "; ".join('("%s", %s)' % f for f in self.effects))
             if tail is None:
                 raise Fail("block without a value")
             if top and self.wrap:
@@ -467,17 +505,28 @@ class Gen:
         if s[0] == "effect":
             self.effect(s[1])
             return self.stmts(rest, tail, top)
+        if s[0] == "setfield":
+            v = s[2]
+            if v == ("var", "true") or v == ("var", "false"):
+                self.effects.append(("self.%s:=" % s[1], "1" if v[1] == "true" else "0"))
+            else:
+                self.effect(v)      # e.g. self.timeout = timer.set_timeout(..): the call is what counts
+            return self.stmts(rest, tail, top)
         if s[0] == "return":
             return self.e(s[1])
         if s[0] == "ifstmt":
             c, body = s[1], s[2]
             inner, btail = body[1], body[2]
+            if btail is None and inner and all(i[0] == "effect" and is_field_effect(i[1]) for i in inner):
+                for i in inner:
+                    self.effect(i[1], guard=self.cond(c))
+                return self.stmts(rest, tail, top)
             if btail is None and len(inner) == 1 and inner[0][0] == "return":
-                return "(if %s then %s else %s)" % (self.e(c), self.e(inner[0][1]), self.stmts(rest, tail, top))
+                return "(if %s then %s else %s)" % (self.cond(c), self.e(inner[0][1]), self.stmts(rest, tail, top))
             if btail is None and inner and all(i[0] == "assign" for i in inner):
                 out = self.stmts(rest, tail, top)
                 for i in reversed(inner):
-                    out = "(let %s := (if %s then %s else %s) in %s)" % (i[1], self.e(c), self.e(i[2]), i[1], out)
+                    out = "(let %s := (if %s then %s else %s) in %s)" % (i[1], self.cond(c), self.e(i[2]), i[1], out)
                 return out
             raise Fail("if statement body outside the subset")
         raise Fail("statement kind " + s[0])
@@ -506,12 +555,15 @@ def translate(src, name, prefix="gen_"):
     # a function that does not build a Result / struct itself returns a plain value: it is wrapped,
     # together with what it handed to its effect objects, into a result record at its tail (where
     # the variables the effect arguments mention are in scope)
-    probe = Gen()
-    probe.local_fns = dict(g.local_fns)
-    probe.nonnumeric = parser.nonnumeric
-    ptext = probe.stmts(rest, body[2])
-    if "RsOk" not in ptext and "RsErr" not in ptext:
-        g.wrap = fname
+    if body[2] is None:
+        g.wrap = fname          # a unit function: what it delegates, and under which condition
+    else:
+        probe = Gen()
+        probe.local_fns = dict(g.local_fns)
+        probe.nonnumeric = parser.nonnumeric
+        ptext = probe.stmts(rest, body[2])
+        if "RsOk" not in ptext and "RsErr" not in ptext:
+            g.wrap = fname
     text = g.stmts(rest, body[2], top=True)
     fields = sorted(g.fields)
     ps = ["%s_%s" % bf for bf in fields] + [p for p in params if p not in ("self",) and p not in EFFECT_OBJECTS and not any(b == p for b, _ in fields)]
@@ -523,13 +575,9 @@ def translate(src, name, prefix="gen_"):
 HEADER = '''(* GENERATED on every run by tools/rs2v.py from %s - do not edit.
    The subset of Rust it accepts and the meaning it gives to it are stated in that file. *)
 From Coq Require Import String.
-From Amq Require Import Lib.Base Gen.Consts.
+From Amq Require Import Lib.Base Lib.RsResult Gen.Consts.
 Open Scope string_scope.
 Open Scope N_scope.
-
-Inductive rs_result :=
-| RsOk (name : string) (fields : list (string * N))
-| RsErr (name : string) (fields : list (string * N)).
 '''
 
 if __name__ == "__main__":
